@@ -154,6 +154,20 @@ impl ValSweep {
                 return (Some(Failure { prop: "C17".into(), kind: k, step: c as usize, detail: format!("character U+{:04X}: {d}", c as u32) }), evals);
             }
         }
+        if c != ' ' && c != 'α' {
+            // a single character and the index that equals its code point are different names
+            let (g, x) = (Label::Greek(c), Label::Alpha(c as usize));
+            evals += 1;
+            let mut gr: sodg::Sodg<2> = sodg::Sodg::empty(3);
+            gr.add(0);
+            gr.add(1);
+            gr.add(2);
+            gr.bind(0, 1, g);
+            gr.bind(0, 2, x);
+            if g == x || gr.kid(0, g) != Some(1) || gr.kid(0, x) != Some(2) || gr.kids(0).count() != 2 {
+                return (Some(Failure { prop: "C17".into(), kind: "label.not_injective".into(), step: c as usize, detail: format!("character U+{:04X}: Greek({c:?}) and Alpha({}) are taken for one label (==: {}, kid: {:?} / {:?})", c as u32, c as usize, g == x, gr.kid(0, g), gr.kid(0, x)) }), evals);
+            }
+        }
         if c != ' ' {
             let mut a = [' '; 8];
             a[0] = 'q';
